@@ -152,12 +152,22 @@ func runCmd(dir string, env []string, stdin []byte, name string, args ...string)
 // buildRepo writes the described objects and references into a fresh bare repository.
 // refs: "name=index" (or "name=@other" for a symbolic ref).
 func buildRepo(objs []gObj, times []int64, refs []string) (*realRepo, error) {
+	return buildRepoKind(objs, times, refs, true)
+}
+
+// buildRepoKind: bare (<tmp>/r.git) or with a work tree (<tmp>/w, git dir <tmp>/w/.git)
+func buildRepoKind(objs []gObj, times []int64, refs []string, bare bool) (*realRepo, error) {
 	dir, err := os.MkdirTemp(scratch(), "repo")
 	if err != nil {
 		return nil, err
 	}
 	gitDir := filepath.Join(dir, "r.git")
-	if _, e, code := runCmd(dir, gitEnv(), nil, "git", "init", "-q", "--bare", gitDir); code != 0 {
+	initArgs := []string{"init", "-q", "--bare", gitDir}
+	if !bare {
+		gitDir = filepath.Join(dir, "w", ".git")
+		initArgs = []string{"init", "-q", filepath.Join(dir, "w")}
+	}
+	if _, e, code := runCmd(dir, gitEnv(), nil, "git", initArgs...); code != 0 {
 		return nil, fmt.Errorf("git init: %s", e)
 	}
 	rr := &realRepo{dir: gitDir, objs: objs, oids: make([]string, len(objs))}
@@ -180,7 +190,12 @@ func buildRepo(objs []gObj, times []int64, refs []string) (*realRepo, error) {
 			continue
 		}
 		idx, _ := strconv.Atoi(kv[1])
-		prs = append(prs, pr{kv[0], rr.oids[idx]})
+		name := kv[0]
+		if h := strings.Index(name, "#"); h >= 0 {
+			j, _ := strconv.Atoi(name[h+1:])
+			name = name[:h] + rr.oids[j]
+		}
+		prs = append(prs, pr{name, rr.oids[idx]})
 	}
 	sort.Slice(prs, func(a, b int) bool { return prs[a].name < prs[b].name })
 	for _, p := range prs {
@@ -192,7 +207,20 @@ func buildRepo(objs []gObj, times []int64, refs []string) (*realRepo, error) {
 	return rr, nil
 }
 
-func (rr *realRepo) cleanup() { os.RemoveAll(filepath.Dir(rr.dir)) }
+func (rr *realRepo) cleanup() {
+	d := filepath.Dir(rr.dir)
+	if filepath.Base(rr.dir) == ".git" {
+		d = filepath.Dir(d)
+	}
+	// linked worktrees and copies are created next to the repository, inside the same temp dir
+	filepath.Walk(d, func(p string, info os.FileInfo, err error) error {
+		if err == nil && info.IsDir() {
+			os.Chmod(p, 0o755)
+		}
+		return nil
+	})
+	os.RemoveAll(d)
+}
 
 func (rr *realRepo) indexOf(oid string) int {
 	for i, o := range rr.oids {
